@@ -201,6 +201,28 @@ def c14(run, replay=None):
     o = run_transfer(root, 1, ["/nonexistent/prog", "x"], None, False, 0, [])
     if o["rc"] in (0, "timeout") or o["log"] != ["pre0"]:
         run.violation("transfer_pid with a missing executable: rc=%r log=%r" % (o["rc"], o["log"]), dict(observed=o))
+    # a RELATIVE program with a directory part and `chdir`: the directory is changed first, the program is looked up
+    # from there - even when a file of the same relative name exists where rash was started
+    rroot = os.path.join(C.SANDBOX, "xr")
+    shutil.rmtree(rroot, ignore_errors=True)
+    os.makedirs(os.path.join(rroot, "tools"))
+    os.makedirs(os.path.join(rroot, "work", "tools"))
+    decoy = os.path.join(rroot, "tools", "run")
+    open(decoy, "w").write("#!/bin/sh\necho '{\"decoy\": true}' > \"$VH_DUMP\"\nexit 9\n")
+    os.chmod(decoy, 0o755)
+    os.symlink(C.VH, os.path.join(rroot, "work", "tools", "run"))
+    sc = ("#!/usr/bin/env rash\n- command:\n    argv: [./tools/run, execdump, x]\n    chdir: %s/work\n    transfer_pid: true\n" % rroot)
+    open(os.path.join(rroot, "main.rh"), "w").write(sc)
+    dump = os.path.join(rroot, "dump.json")
+    pr = subprocess.run([C.RASH, "--output", "raw", os.path.join(rroot, "main.rh")], capture_output=True, timeout=15, cwd=rroot,
+                        env=dict(os.environ, VH_DUMP=dump, VH_EXIT="42"))
+    try:
+        d = json.load(open(dump))
+    except Exception:
+        d = None
+    if d is None or d.get("decoy") or pr.returncode != 42 or os.path.realpath(d["cwd"]) != os.path.realpath(os.path.join(rroot, "work")):
+        run.violation("transfer_pid with chdir and a relative program ./tools/run: expected the program under the chdir directory (exit 42, cwd work), got rc=%r dump=%r" % (pr.returncode, d),
+                      dict(script=sc, observed=dict(rc=pr.returncode, dump=d, stderr=pr.stderr.decode("utf-8", "replace")[-200:])))
     # K32: the hand-over fails AFTER the main process has dropped its credentials (become + transfer_pid + a program
     # that cannot be executed) and the failure is ignored: the rest of the script runs as the other user
     if nb and os.geteuid() == 0:
@@ -305,6 +327,14 @@ def c15(run, replay=None):
         daemon = pwd.getpwnam("daemon")
     except KeyError:
         pass
+    # check mode does not change WHO runs the module: `command` (which runs in check mode too) must still see the target user
+    for gargs, kw in ((["--check"], False), ([], True), (["-c"], True)):
+        sc = ("#!/usr/bin/env rash\n- command: id -u\n  become: true\n  become_user: nobody\n" + ("  check_mode: true\n" if kw else "") +
+              "- command: id -g\n  become: true\n  become_user: nobody\n" + ("  check_mode: true\n" if kw else ""))
+        o = E.run_impls([dict(files={"main.rh": dict(raw=sc)}, world_writable=True, rash_args=gargs)], timeout=15)[0]
+        if o["rc"] != 0 or o["stdout"] != "%d\n\n%d\n\n" % (nb[0], nb[1]):
+            run.violation("become in check mode (%s%s): the command did not run as nobody: stdout %r rc %r" % (" ".join(gargs), " check_mode: true" if kw else "", o["stdout"], o["rc"]),
+                          dict(script=sc, rash_args=gargs, observed=o))
     combos = [([], False, "root"), (["-b"], True, "root")]
     if daemon:
         combos += [(["-b", "-u", "daemon"], True, "daemon"), (["-u", "daemon"], False, "daemon")]
